@@ -111,6 +111,13 @@ def leaf_universe(rng, tier):
                 mx = (mn + (np.arange(n).reshape(sh) % 3)).astype(dt)
                 out.append(S.BoundedArray(sh, dt, mn, mx, name="elementwise"))
                 out.append(S.BoundedArray(sh, dt, lo, mx.max(axis=0) if len(sh) > 1 and False else mx, name="max_elementwise"))
+            # bounds that broadcast ACROSS the trailing axes (one bound per row / per leading index): shape (n, 1), (n, 1, 1)
+            if len(sh) >= 2 and 0 not in sh and sh[0] >= 2 and n > sh[0]:
+                bsh = (sh[0],) + (1,) * (len(sh) - 1)
+                rmn = (np.arange(sh[0]).reshape(bsh) * (10 if not isf else 2.5) + lo).astype(dt)
+                rmx = (rmn + 2).astype(dt)
+                out.append(S.BoundedArray(sh, dt, rmn, rmx, name="per_row"))
+                out.append(S.BoundedArray(sh, dt, rmn, float(rmx.max()) if isf else int(rmx.max()), name="min_per_row"))
     for dt in ("int8", "int32", "uint8", "int16"):
         for nv in (1, 2, 5):
             out.append(S.DiscreteArray(nv, dt, name=f"d{nv}"))
@@ -152,7 +159,8 @@ def random_leaf_universe(rng, n):
                     mn, mx = (a / 4.0, b / 4.0) if isf else (a, b)
                 else:
                     # bounds of the trailing-axis shape (broadcast along the leading axes) or of the full shape
-                    bsh = sh if rng.random() < 0.5 else sh[-1:]
+                    u = rng.random()
+                    bsh = sh if u < 0.4 else sh[-1:] if u < 0.7 else (sh[0],) + (1,) * (len(sh) - 1)
                     a = rng.integers(lo_lim, hi_lim, size=bsh)
                     b = a + rng.integers(0, 20, size=bsh)
                     if not isf:
